@@ -433,9 +433,7 @@ func (m c17) equalityLaws(c *Ctx, specs []*TypeSpec, state *ResSpec) {
 				if s12 {
 					c.Violate("equalstrict-true-on-different/"+p.class, "%s", desc())
 				}
-				if !e12 {
-					c.Violate("equal-false-on-id-only-difference", "Equal ignores IDs by contract: %s", desc())
-				}
+				_ = e12 // whether the non-strict form looks at IDs is not part of the statement
 			default:
 				if e12 {
 					c.Violate("equal-true-on-different/"+p.class, "%s", desc())
